@@ -2130,7 +2130,17 @@ func (c *c06Census) walkFunc(f *c06Func) {
 		return true
 	})
 	if len(locks) > 0 {
-		c.add(f, "lock", "-", strings.Join(locks, " "))
+		// with the statement shape of facts_c19.go (lookups, writes and returns between the lock operations, top level of the body)
+		shape := c19Shape(f.decl.Body.List)
+		for i, tok := range shape { // `return as.getOrCreatePath`: drop the receiver's name
+			if strings.HasPrefix(tok, "return ") {
+				shape[i] = "return " + tok[strings.LastIndex(tok, ".")+1:]
+				if !strings.Contains(tok, ".") {
+					shape[i] = tok
+				}
+			}
+		}
+		c.add(f, "lock", "-", strings.Join(locks, " ")+"; shape: "+strings.Join(shape, " "))
 	}
 }
 
